@@ -9,8 +9,14 @@ run() { want "${1%% *}" || return 0; echo "=================== $1"; shift; /veri
 echo applied" 2>&1 | grep -v "^WARNING\|^Closed\|^KNOWN" | grep "^\[C08\]\|VIOLATION\|exit=\|failed\|applied\|FAILED" | cut -c1-330; }
 run "M1 reverse piecewise child order (7adfc9a)" "patch -p1 -R < /verif/fixes/C08-piecewise-child-order.diff"
 run "M2 reverse chained comparison (e2724ba)" "patch -p1 -R < /verif/fixes/C08-chained-comparison.diff"
-run "M3 reverse computed stoichiometry sign (0cf2119)" "patch -p1 -R < /verif/fixes/C08-computed-stoichiometry-sign.diff"
-run "M4 reverse initial assignment setSymbol (22ac673)" "patch -p1 -R < /verif/fixes/C08-initial-assignment-symbol.diff"
+# M3 / M4: the reverse patches stopped applying when 3f12a61 / bbf7724 changed their context lines; same edits by hand
+run "M3 reverse computed stoichiometry sign (0cf2119): a computed coefficient is written as a reactant" "python3 - <<'PY'
+p='src/mxlpy/sbml/_export.py'; s=open(p).read()
+a='                    sref = sbml_rxn.createProduct()\n                    sref.setId('
+assert s.count(a)==1
+s=s.replace(a, a.replace('createProduct','createReactant')); open(p,'w').write(s)
+PY"
+run "M4 reverse initial assignment setSymbol (22ac673): setVariable" "sed -i 's/ar.setSymbol(/ar.setVariable(/' src/mxlpy/sbml/_export.py"
 
 # M5 overlaps the log10 fix (in /repo since b7459c2): take that one out first
 FIX=true run "M5 reverse unknown calls / arity / keywords (f62d241, with b7459c2 reversed first)" "patch -p1 -R -s < /verif/fixes/C08-log10-base.diff && patch -p1 -R -s < /verif/fixes/C08-call-unknown-or-arity.diff"
